@@ -105,11 +105,11 @@ func H_C09_binaries() {
 }
 
 type ZText struct {
-	A  string
-	B  []byte
-	L  []string
-	M  map[string]string
-	Z  int32
+	A string
+	B []byte
+	L []string
+	M map[string]string
+	Z int32
 }
 
 // H_C09_positions: strings and byte slices as struct field, list element, map key and map value, including
